@@ -14,8 +14,11 @@ directory under /dev/shm and three independent things are decided, each clause w
              geogram [ATTS]-first order + explicit facet_ptr + the adjacency attributes geogram stores, xyz count
              line / colour columns, STL normals + attribute words + arbitrary header bytes, and for every text
              format a 'layout' variant: 17-digit numbers with sign / upper-case exponent, tabs, indentation,
-             trailing blanks, CR LF); only a failure that NEEDS the construct is reported here (one that the
-             plain variant of the same mesh shows as well is the read clause's)    -> blames mesh.load
+             trailing blanks, CR LF), and the constructs that have a POSITION in the file, each at its first / middle /
+             last record: OFF comments and counts on the header line, OBJ relative indices and polyline records,
+             medit keyword+count on one line / blank lines in a block / Dimension 2, blank lines in xyz / tet /
+             geogram / ASCII STL, geogram comment-only lines; only a failure that NEEDS the construct is reported
+             here (one that the plain variant of the same mesh shows as well is the read clause's) -> blames mesh.load
   roundtrip  mouette loads what mouette wrote (reported when the writer was found sound, or when a
              different clause fails than in `write`)                             -> blames mesh.load
   attributes geogram_ascii only: 5 types x arity 1..3 x every container x sparse/dense x value pattern.
@@ -41,7 +44,7 @@ from mc.core import Report, call, exc_kind
 ID = "C04"
 TECHNIQUE = "bounded-exhaustive (mesh, format, switch vector) round trips of the real save/load vs independent reference codecs"
 RULE = ("every mesh of the finite families (all-triples point cloud over an 11-value coordinate alphabet, all "
-        "labelled graphs, all labelled oriented manifold tri/quad complexes, polygon and polyhedron specimens, all "
+        "labelled graphs, 3 polyline specimens, all labelled oriented manifold tri/quad complexes, polygon and polyhedron specimens, all "
         "labelled conforming tet complexes, hexahedra) x 7 formats x every export-switch vector within one deviation "
         "of the defaults (export_edges_in_obj, complete_edges_from_faces, every non-empty subset of ignore_elements "
         "the mesh class owns) x declared hard edges (none / one / dangling) x face-listing deviation; one case = one "
@@ -51,7 +54,9 @@ RULE = ("every mesh of the finite families (all-triples point cloud over an 11-v
         "sub-family written by the reference writer x 7 formats x dim in {None,0,1,2,3} x edge completion on/off; "
         "regen clause: the same sub-family x 7 formats x {defaults, complete_edges_from_faces off, obj: export_edges_in_obj "
         "off}, one case = one (mesh, format, switches) whose first generation passed every clause; read_optional: every "
-        "mesh of the families x every optional-construct variant of the reference writer x edge completion on/off")
+        "mesh of the families x every optional-construct variant of the reference writer x edge completion on/off, and "
+        "every positional construct (12 over the 7 formats) x every position (first / middle / last record, end of file or "
+        "every record) x every mesh of the families x edge completion on/off")
 ASSUMPTIONS = [
     "the reference codecs in mc/c04_codecs.py (token-stream parsers and writers written from the public format "
     "descriptions, self-tested against each other and against the repository's tests/data files) are the trusted base",
@@ -80,10 +85,23 @@ ASSUMPTIONS = [
     "[w]' / 'v x y z r g b', mtllib / usemtl; medit '#' comment lines, blank lines between blocks, Corners / Ridges / "
     "RequiredVertices blocks, any integer reference; GeoFile: chunk order free as long as an [ATTR] follows its [ATTS], "
     "facet_ptr allowed on triangle meshes, corner_adjacent_facet / adjacent_cell attributes; xyz: leading count line, "
-    "6 columns; STL: facet normals, non-zero attribute byte count, arbitrary 80-byte header); constructs the UNCHANGED "
-    "reader is known not to read (OFF '#' comments and header+counts on one line, OBJ relative indices and 'l' records "
-    "with more than two vertices, blank lines inside xyz / tet / geogram / ASCII-STL bodies, medit keyword and count on "
-    "one line) are NOT exercised: they are reported once by hand, not by this check",
+    "6 columns; STL: facet normals, non-zero attribute byte count, arbitrary 80-byte header)",
+    "read_optional, positional constructs (mc/c04_codecs.py CONSTRUCTS; every file is checked against the reference reader "
+    "by the codec self-test): OFF '#' comment lines and comments after a record, OFF 'OFF nv nf ne' on one line; OBJ negative "
+    "(relative) indices in 'f' and 'l' records with the vertices written just before the record that needs them, OBJ 'l' "
+    "records with more than two vertices (the edges decomposed into trails); medit keyword and count on one line, blank "
+    "lines inside a block, 'Dimension 2' with 'x y ref' vertex records (planar models only, z = +0.0 exactly); blank lines "
+    "in xyz / tet / geogram_ascii / ASCII-STL bodies and at the end of the file; geogram_ascii comment-only lines. Each "
+    "construct is placed at the first / middle / last record it can attach to (and at the end of the file, resp. on every "
+    "record) of every mesh of the families; its input class is format:construct whatever the element kinds, a refusal keeps "
+    "its exception class, any wrong content is the one kind mismatch:content (which element kind is lost depends on where "
+    "the construct sits); a failure the plain file of the same mesh shows as well is not the construct's",
+    "valid-looking constructs NOT exercised, with the reason: OBJ '\\' line continuation and 'l v/vt' references, medit "
+    "comments inside a block and several records on one line, ASCII STL with a whole facet on one line (the descriptions "
+    "allow them, no exporter is known to write them; several records on one line need a token-stream reader = redesign); "
+    "OBJ / xyz / tet comments after a record or in the body, xyz separators other than blanks, OFF without the edge count, "
+    "upper-case STL keywords, binary STL whose header starts with 'solid' (the descriptions are silent, ambiguous or forbid "
+    "them)",
     "regen clause: m1's declared edges are the edges the independent reader sees in the generation-1 file; the "
     "expectation for generation 2 is computed from the snapshot of m1 by the same rules as for any mesh; attributes "
     "of the generation-1 file must reappear in the generation-2 file with the same type, arity and values (the file may "
@@ -102,7 +120,9 @@ BOUNDS = {
              "11 specimens, tet complexes n<=5 x 2 orientations, 3 hex specimens}: x 7 formats x 9 ignore sets x 2 (obj: 3) "
              "switch bases, resp. x 7 formats x 5 dim values x completion on/off; regen clause on the same sub-family x 7 "
              "formats x 2 (obj: 3) switch vectors + every attribute case; reference-writer variants per format: obj 7, "
-             "mesh 4, off 5 (+2-gons), tet 2, xyz 4, geogram_ascii 4, stl 4",
+             "mesh 4, off 5 (+2-gons), tet 2, xyz 4, geogram_ascii 4, stl 4; positional constructs x positions: obj 2 x 4, "
+             "mesh 4 + 3 + 1, off 4 + 1, tet 4, xyz 4, geogram_ascii 4 + 4, ASCII stl 4; + 3 polyline specimens (stars with 4 / 6 "
+             "leaves, three disjoint paths) so that every position of an OBJ polyline record exists",
     "thorough": "quick + graphs n=5 (1023); tri+quad complexes n=5 with <=5 faces (2612) x 2 listings x <=3 hard-edge "
                 "variants; every single face rotation / adjacent swap of the n=4 complexes; the 16 tet classes on 6 "
                 "vertices x 2 orientations; holey 3x3 grids; ignore + dim clauses on quick's sub-family + graphs n=4, both "
@@ -225,6 +245,12 @@ def family(name, tier):
                     "C": [[4, 5, 6, 7, 8, 9, 10, 11], [0, 1, 2, 3, 4, 5, 6, 7]]})
         out.append({"name": "hex:hex+tet", "n": 12, "E": [], "F": [], "xyz": fl(cube + up),
                     "C": [[8, 9, 10, 11], [0, 1, 2, 3, 4, 5, 6, 7]]})
+    elif name == "trails":           # polyline specimens whose edges decompose into 2 / 3 trails of three vertices
+        def star(k):
+            return [[0, leaf] if leaf % 2 else [leaf, 0] for leaf in range(1, k + 1)]
+        out.append({"name": "trails:star4", "n": 5, "E": star(4), "F": [], "C": []})
+        out.append({"name": "trails:star6", "n": 7, "E": star(6), "F": [], "C": []})
+        out.append({"name": "trails:paths3", "n": 9, "E": [[0, 1], [1, 2], [4, 3], [4, 5], [6, 7], [8, 7]], "F": [], "C": []})
     elif name == "sel":              # the sub-family of the ignore / dim clauses: every mesh kind, small members
         def take(fam, pred=lambda nm: True):
             out.extend(sp for sp in family(fam, tier) if pred(sp["name"]))
@@ -242,9 +268,10 @@ def family(name, tier):
     return out
 
 
-FAMILIES = {"quick": ["cloud", "graph", "surf", "zoo", "tet", "hex"],
-            "thorough": ["cloud", "graph", "surf", "listing", "zoo", "tet", "hex"]}
+FAMILIES = {"quick": ["cloud", "graph", "trails", "surf", "zoo", "tet", "hex"],
+            "thorough": ["cloud", "graph", "trails", "surf", "listing", "zoo", "tet", "hex"]}
 PINNED = {("quick", "cloud"): 4, ("quick", "graph"): 71, ("quick", "zoo"): 11, ("quick", "tet"): 54, ("quick", "hex"): 3,
+          ("quick", "trails"): 3, ("thorough", "trails"): 3,
           ("thorough", "cloud"): 4, ("thorough", "graph"): 1094, ("thorough", "tet"): 86, ("thorough", "hex"): 3}
 IGN_KINDS = ("edges", "faces", "cells")
 DIMS = [None, 0, 1, 2, 3]
@@ -891,6 +918,17 @@ def _stl_check_load(ctx, result, want_soups, exp):
 
 
 # ------------------------------------------------------------------------------------------------ read phase
+def _construct_violation(rep, fail, icls, detail):
+    """A file that uses a positional construct is misread: which element kind comes back wrong depends on where the construct
+    sits (a skipped medit block loses vertices, edges, faces or cells), so every wrong content is ONE fingerprint per
+    construct (the clause goes to the detail); a refusal keeps its exception class."""
+    if fail[0] == "loads":
+        _violation(rep, "C04.read_optional.loads", "mouette.mesh.load", fail[1], icls, detail)
+    else:
+        _violation(rep, "C04.read_optional.content", "mouette.mesh.load", "mismatch:content", icls,
+                   {**detail, "clause": fail[0], "mismatch": fail[1]})
+
+
 def read_phase(ctx, spec, salt, fmt):
     """The independent writer's file must load correctly (under the default switches and with edge completion off)."""
     from mc import c04_codecs as K
@@ -938,70 +976,101 @@ def read_phase(ctx, spec, salt, fmt):
                     rep.count("clean_read:stl")
                     rep.flag(f"clean_read:stl:{var}")
             ctx.pending.append((path, later))
+        # valid constructs with a position in the file (blank lines in the ASCII token stream), one class per construct
+        for tag, pos, blob in K.stl_construct_files(tris):
+            path = ctx.path("stl")
+            with open(path, "wb") as f:
+                f.write(blob)
+            rep.states += 1; rep.traces += 1; rep.transitions += 1
+            rep.case((spec["name"], "stl-ascii", tag, pos))
+            rep.flag(f"construct_ran:stl-ascii:{tag}:{pos}")
+            def later(result, tag=tag, pos=pos, blob=blob):
+                fail = _stl_check_load(ctx, result, want, {"F": model["F"]})
+                rep.outcome("read:stl", fail[0] if fail else "same")
+                if not fail:
+                    rep.count("clean_read:stl")
+                    rep.count("clean_read_optional")
+                    rep.flag(f"clean_read:stl-ascii:{tag}")
+                elif failed.get("ascii") == fail[:2]:
+                    rep.count("read_optional_same_as_plain")
+                else:
+                    rep.flag(f"construct_reported:stl-ascii:{tag}")
+                    _construct_violation(rep, fail, f"stl-ascii:{tag}", {**small, **fail[2], "optional_construct": tag, "position": pos,
+                                                                         "file": blob[:1500].decode("latin-1")})
+            ctx.pending.append((path, later))
         return
     variants = list(range(K.N_VARIANTS[fmt]))
     if fmt == "off" and spec["E"] and not spec["F"]:
         variants.append("2gons")
     plain_fails = set()            # failure keys of the variants that use no optional construct (either switch value)
+
+    def load_and_judge(text, C_on, twogons=None):
+        """mouette loads one file of the independent writer under one value of the edge-completion switch
+        -> (sw, first failing clause or None, snapshot of what was loaded or None)"""
+        sw = {"id": "default"} if C_on else {"id": "C=0", "C": False}
+        path = ctx.path(fmt)
+        with open(path, "w", newline="\n") as f:
+            f.write(text)
+        rep.states += 1; rep.traces += 1; rep.transitions += 2
+        # expectation from the model
+        derived = set()
+        if C_on:
+            derived |= _fe(model["F"])
+            for c in model["C"]:
+                tbl = TET_EDGES if len(c) == 4 else HEX_EDGES
+                derived |= {(min(c[a], c[b]), max(c[a], c[b])) for a, b in tbl}
+        wantE = _eset(model["E"]) | derived
+        if twogons is not None:
+            bounds = (set(), _eset(twogons))
+            wcls = ["PolyLine", "PointCloud"]
+        else:
+            bounds = (wantE, wantE)
+            wcls = ["VolumeMesh"] if model["C"] else ["SurfaceMesh"] if model["F"] else ["PolyLine"] if wantE else ["PointCloud"]
+        with switches(M, sw):
+            o = call(_load_snap, M, path)
+        fail = None
+        if not o.ok:
+            fail = ("loads", exc_kind(o), {"msg": o.msg})
+        else:
+            got = o.value
+            rep.evaluations += 5
+            per = fmt == "mesh"
+            if _hexes(got["V"]) != _hexes(model["V"]):
+                fail = ("vertices", "mismatch:coordinates", _first_diff(_hexes(got["V"]), _hexes(model["V"])))
+            elif _cmp_elems(got["C"], model["C"], per):
+                fail = ("cells", "mismatch:cells", _cmp_elems(got["C"], model["C"], per))
+            elif twogons is None and (model["F"] or not model["C"]) and _cmp_elems(got["F"], model["F"], per):
+                fail = ("faces", "mismatch:faces", _cmp_elems(got["F"], model["F"], per))
+            elif _cmp_edges(got["E"], bounds):
+                fail = ("edges", "mismatch:edges", _cmp_edges(got["E"], bounds))
+            elif got["cls"] not in wcls:
+                fail = ("class", "mismatch:class", {"got": got["cls"], "want": wcls})
+        rep.outcome("read:" + fmt, fail[0] if fail else "same")
+        return sw, fail, (o.value if o.ok else None)
+
+    def failure_key(fail, got, tag=""):
+        kk = fail[0] if fail[0] in ("vertices", "edges") else kinds
+        if fail[0] == "cells":
+            kk = _offender(kk, "cells", got["C"], model["C"], model["F"])
+        if tag:
+            kk = "edges"
+        return kk, (fmt, "read", fail[0], fail[1], kk + tag)
+
     for var in variants:
         opt = None if var == "2gons" else K.VARIANT_TAG[fmt][var]
         for C_on in (True, False):
-            sw = {"id": "default"} if C_on else {"id": "C=0", "C": False}
             if var == "2gons":
                 m2 = dict(model); m2["F"] = [sorted(e) for e in spec["E"]]
                 text = K.write_off(m2, 0)
             else:
                 text = K.WRITERS[fmt](model, var)
-            path = ctx.path(fmt)
-            with open(path, "w", newline="\n") as f:
-                f.write(text)
-            rep.states += 1; rep.traces += 1; rep.transitions += 2
-            # expectation from the model
-            derived = set()
-            if C_on:
-                derived |= _fe(model["F"])
-                for c in model["C"]:
-                    tbl = TET_EDGES if len(c) == 4 else HEX_EDGES
-                    derived |= {(min(c[a], c[b]), max(c[a], c[b])) for a, b in tbl}
-            wantE = _eset(model["E"]) | derived
-            if var == "2gons":
-                e2 = _eset(m2["F"])
-                bounds = (set(), e2)
-                wcls = ["PolyLine", "PointCloud"]
-            else:
-                bounds = (wantE, wantE)
-                wcls = ["VolumeMesh"] if model["C"] else ["SurfaceMesh"] if model["F"] else ["PolyLine"] if wantE else ["PointCloud"]
-            with switches(M, sw):
-                o = call(_load_snap, M, path)
-            fail = None
-            if not o.ok:
-                fail = ("loads", exc_kind(o), {"msg": o.msg})
-            else:
-                got = o.value
-                rep.evaluations += 5
-                per = fmt == "mesh"
-                if _hexes(got["V"]) != _hexes(model["V"]):
-                    fail = ("vertices", "mismatch:coordinates", _first_diff(_hexes(got["V"]), _hexes(model["V"])))
-                elif _cmp_elems(got["C"], model["C"], per):
-                    fail = ("cells", "mismatch:cells", _cmp_elems(got["C"], model["C"], per))
-                elif var != "2gons" and (model["F"] or not model["C"]) and _cmp_elems(got["F"], model["F"], per):
-                    fail = ("faces", "mismatch:faces", _cmp_elems(got["F"], model["F"], per))
-                elif _cmp_edges(got["E"], bounds):
-                    fail = ("edges", "mismatch:edges", _cmp_edges(got["E"], bounds))
-                elif got["cls"] not in wcls:
-                    fail = ("class", "mismatch:class", {"got": got["cls"], "want": wcls})
-            rep.outcome("read:" + fmt, fail[0] if fail else "same")
+            sw, fail, got = load_and_judge(text, C_on, m2["F"] if var == "2gons" else None)
             if fail:
                 if var != "2gons" and opt is None:
                     ctx.read_fail.add(fmt)
                 tag = ":2gons" if var == "2gons" else ""
-                kk = fail[0] if fail[0] in ("vertices", "edges") else kinds
-                if fail[0] == "cells":
-                    kk = _offender(kk, "cells", o.value["C"], model["C"], model["F"])
-                if tag:
-                    kk = "edges"
+                kk, key = failure_key(fail, got, tag)
                 icls = f"{fmt}:{kk}{tag}"
-                key = (fmt, "read", fail[0], fail[1], kk + tag)
                 detail = {**small, **fail[2], "variant": var, "switches": sw, "file": text[:1500]}
                 if opt is None:
                     plain_fails.add(key)
@@ -1028,6 +1097,26 @@ def read_phase(ctx, spec, salt, fmt):
                 if opt is not None:
                     rep.flag(f"clean_read:{fmt}:{opt}")
                     rep.count("clean_read_optional")
+    # valid constructs with a POSITION in the file (comment / blank lines, relative indices, polyline records, keyword and
+    # count on one line, ...): construct x position x this mesh x edge completion on/off; ONE input class per construct
+    # (format:construct) whatever the element kinds of the mesh, the position goes to the detail
+    for tag, pos, text in K.construct_files(fmt, model):
+        rep.case((spec["name"], fmt, tag, pos))
+        rep.flag(f"construct_ran:{fmt}:{tag}:{pos}")
+        for C_on in (True, False):
+            sw, fail, got = load_and_judge(text, C_on)
+            if not fail:
+                rep.count("clean_read:" + fmt)
+                rep.count("clean_read_optional")
+                rep.flag(f"clean_read:{fmt}:{tag}")
+                continue
+            kk, key = failure_key(fail, got)
+            if key in plain_fails:
+                rep.count("read_optional_same_as_plain")
+                continue
+            rep.flag(f"construct_reported:{fmt}:{tag}")
+            _construct_violation(rep, fail, f"{fmt}:{tag}",
+                                 {**small, **fail[2], "optional_construct": tag, "position": pos, "switches": sw, "file": text[:1500]})
 
 
 # ================================================================================================ dim override
@@ -1883,6 +1972,12 @@ def finish(tier, rep: Report):
         for tag in tags:
             if tag is not None and f"clean_read:{fmt}:{tag}" not in rep.flags:
                 fails.append(f"read_optional: no file with the optional construct {tag} loaded correctly for format {fmt}")
+    for (fmt, tag), positions in sorted(K.CONSTRUCT_POSITIONS.items()):
+        for pos in positions:
+            if f"construct_ran:{fmt}:{tag}:{pos}" not in rep.flags:
+                fails.append(f"read_optional: the construct {fmt}:{tag} was never written at the position '{pos}'")
+        if f"clean_read:{fmt}:{tag}" not in rep.flags and f"construct_reported:{fmt}:{tag}" not in rep.flags:
+            fails.append(f"read_optional: no file with the construct {fmt}:{tag} loaded correctly and none was reported")
     for var, _ in K.STL_VARIANTS:
         if f"clean_read:stl:{var}" not in rep.flags:
             fails.append(f"no reference-written STL of the variant {var} loaded correctly")
